@@ -65,9 +65,30 @@ def integer_valued(p):
 class Canon:
     """normaliser with a memo (terms are hash-consed: the memo is keyed by identity)"""
 
-    def __init__(self):
+    def __init__(self, lower_bounds=None):
         self.memo = {}
         self.keep = []
+        self.lb = {}          # interned leaf term -> known lower bound
+        for t, v in (lower_bounds or {}).items():
+            self.lb[intern(t)] = float(v)
+
+    def set_lower_bound(self, t, v):
+        self.lb[intern(t)] = float(v)
+        self.memo.clear()
+
+    def lower_bound(self, p):
+        """lower bound of a polynomial from the known bounds of its leaves (None = unknown)"""
+        tot = 0.0
+        for m, c in p.items():
+            if m == ():
+                tot += c
+            elif len(m) == 1 and m[0][0] == 'p' and c > 0 and m[0][1] in self.lb:
+                tot += c * self.lb[m[0][1]]
+            elif len(m) == 1 and m[0][0] in ('floor', 'tdiv', 'abs', 'rem_euclid') and c > 0 and m[0][0] in ('abs', 'rem_euclid'):
+                tot += 0.0
+            else:
+                return None
+        return tot
 
     def cf(self, t):
         k = id(t)
@@ -104,6 +125,10 @@ class Canon:
                         ca = const_of(a)
                         if ca is not None:
                             return {(): float(math.trunc(ca / k))} if math.trunc(ca / k) else {}
+                        lb = self.lower_bound(a)
+                        if k > 0 and lb is not None and lb >= 0:
+                            # a non-negative dividend: truncation and floor coincide
+                            return self.atom('floor', {m: c / k for m, c in a.items()})
                         return self.atom('tdiv', a, k)
                     return {m: c / k for m, c in a.items()}
             if op == 'Rem':
@@ -158,6 +183,9 @@ def skel_atom(a):
     """the atom with the numbers inside it erased"""
     if a[0] == 'p':
         return a
+    if a[0] == 'tdiv':
+        # a truncating quotient has the shape of a floor quotient; with a possibly negative dividend it is a different function
+        return ('floor', skel_poly(thaw(a[1])))
     return (a[0], skel_poly(thaw(a[1])))
 
 
